@@ -149,8 +149,7 @@ def run_shard(ctx):
         def t(cls, ps, how):
             try:
                 check(ctx, cls, ps, how)
-                if ctx.evaluations % 4001 == 0:
-                    ctx.sample({"cls": cls, "pieces": ps, "how": how})
+                ctx.maybe_sample({"cls": cls, "pieces": ps, "how": how}, 4001)
             except Abandon:
                 pass
         return t
